@@ -162,7 +162,8 @@ NextOf(P(_), PS(_), PM(_)) ==
           Add(S, c, v, b[1], b[2], bk /\ b[2] > 0)
      \/ \E S \in PS(SignerSets), c \in P(Cids), rs \in P(RepSeqs) : Commit(S, c, rs)
      \/ \E c \in P(Cids), m \in P(Msgs) : \E sg \in PM(c) : Verify(c, m, sg)
-     \/ \E S \in P(SignerSets), c \in P(Cids), m \in P(Msgs) : \E sg \in PM(c) : Submit(S, c, m, sg)
+     \/ \E S \in P({T \in SignerSets : "ALPHA" \notin T}), c \in P(Cids), m \in P(Msgs) : \E sg \in PM(c) : Submit(S, c, m, sg)
+          \* submitObjectPut checks no witness at all; it is explored without the Alphabet's
   /\ api' = ApiOf(comm', reps')
 
 All(X) == X
